@@ -135,8 +135,70 @@ fn race(id: &str, op: &str) {
   }
 }
 
+/// C09 on real threads and the real timer: a source item arrives while the window task of `throttle_time` is handing the
+/// trailing item to a slow subscriber on a pool thread; one more item follows.  Whatever is delivered is a source item, at
+/// most once, in source order.
+fn throttle_order(id: &str, edge: &str) {
+  use std::sync::{mpsc, Arc, Mutex};
+  let (tx, rx) = mpsc::channel::<String>();
+  let edge = edge.to_string();
+  std::thread::spawn(move || {
+    let pool = FuturesThreadPoolScheduler::new().unwrap();
+    let mut source = SubjectThreads::<i32, std::convert::Infallible>::default();
+    let hits = Arc::new(Mutex::new(Vec::<i32>::new()));
+    let h = hits.clone();
+    let (slow_tx, slow_rx) = mpsc::channel::<()>();
+    let slow_tx = Mutex::new(slow_tx);
+    let e = if edge == "all" { ThrottleEdge::all() } else { ThrottleEdge::tailing() };
+    let _subscription = source.clone().throttle_time(Duration::from_millis(200), e, pool).subscribe(move |v| {
+      h.lock().unwrap().push(v);
+      if v == 2 {
+        let _ = slow_tx.lock().unwrap().send(());
+        std::thread::sleep(Duration::from_millis(400));
+      }
+    });
+    source.next(1);
+    source.next(2);
+    if slow_rx.recv_timeout(Duration::from_secs(5)).is_err() {
+      let _ = tx.send(format!("the trailing item of the first window never arrived: {:?}", hits.lock().unwrap()));
+      return;
+    }
+    std::thread::sleep(Duration::from_millis(100));
+    source.next(3);
+    source.next(4);
+    std::thread::sleep(Duration::from_millis(1200));
+    let seen = hits.lock().unwrap().clone();
+    let mut last = 0;
+    let mut ok = true;
+    for v in &seen {
+      if *v <= last || *v > 4 {
+        ok = false;
+      }
+      last = *v;
+    }
+    let _ = tx.send(if ok { "ok".to_string() } else { format!("not the source's items in the source's order, each at most once: {:?}", seen) });
+  });
+  match rx.recv_timeout(Duration::from_secs(12)) {
+    Ok(r) => println!("{id} {r}"),
+    Err(_) => println!("{id} hang"),
+  }
+}
+
 fn main() {
   std::panic::set_hook(Box::new(|_| {}));
+  if std::env::args().nth(1).as_deref() == Some("order") {
+    let hs: Vec<_> = ["all", "tailing"]
+      .iter()
+      .map(|e| {
+        let e = e.to_string();
+        std::thread::spawn(move || throttle_order(&format!("order-throttle-{e}"), &e))
+      })
+      .collect();
+    for h in hs {
+      let _ = h.join();
+    }
+    return;
+  }
   if std::env::args().nth(1).as_deref() == Some("races") {
     let hs: Vec<_> = ["debounce", "delay", "throttle", "observe_on"]
       .iter()
